@@ -55,6 +55,11 @@ Insensitive(stat) ==      \* operations the statistic is claimed not to notice (
     \cup (IF stat \in {"f2", "fst", "pi_xy", "king", "r0", "r1"} THEN {"swap"} ELSE {})
     \cup (IF stat \in {"f2", "f3", "f4", "fst", "king", "r0", "r1", "sum", "s", "pi", "pi_xy", "theta"} THEN {"scale"} ELSE {})
 
+(* "all values of the monomorphic entries" includes the non-finite ones a masked spectrum carries (NaN, +-inf): the     *)
+(* statistics that never look at the two corners are unchanged by them.  Fst is left out on purpose: it is defined on the *)
+(* NORMALISED spectrum, and normalising divides by a total that is then not finite (as built; see DESIGN 9.3).           *)
+SpecialInsensitive == {"s", "pi", "theta", "d_tajima", "d_fu_li", "pi_xy", "king", "r0", "r1"}
+
 ScalesWithFactor(stat) == stat \in {"sum", "s", "pi", "pi_xy", "theta"}
 
 Scaled(x, c) == IF x.class = "finite" THEN Fin(QMul(x.v, c)) ELSE x
@@ -85,6 +90,7 @@ Emit ==
         factor |-> QStr(factor),
         claims |-> {s \in StatNames : Claims(s)},
         scaled |-> {s \in StatNames : ScalesWithFactor(s)},
+        mono_specials |-> {s \in SpecialInsensitive : Admissible(s, sp.shape)},
         stats |-> [s \in {x \in StatNames : Admissible(x, sp.shape)} |-> ValJson(SStat(s, sp))],
         marginal_f2 |-> IF Len(sp.shape) \in {3, 4}
                         THEN [p \in {<<a, b>> \in (1..Len(sp.shape)) \X (1..Len(sp.shape)) : a < b} |-> ValJson(F2of(sp, p[1], p[2]))]
